@@ -63,7 +63,12 @@ Async(cfg, order, S) == LET st == AsyncStarted(cfg, S)
                      S1 == [S EXCEPT !.log = @ \o SetToSeqLog(st)]
                  IN  Complete(cfg, order, Completing(cfg, st), S1)
 Start(cfg) == [out |-> [b \in Blocks(cfg) |-> UNDEF], steps |-> [b \in Blocks(cfg) |-> 0], log |-> <<>>]
-Run(cfg, order) == Sync2(cfg, order, 1, Async(cfg, order, Sync1(cfg, order, 1, Start(cfg))))
+(* first # 0: an external event reaches block `first` right after the blocks were started, *)
+(* before the simulator has initialised anything                                          *)
+RunX(cfg, order, first) ==
+    LET S0 == IF first = 0 THEN Start(cfg) ELSE Event(cfg, first, Start(cfg))
+    IN  Sync2(cfg, order, 1, Async(cfg, order, Sync1(cfg, order, 1, S0)))
+Run(cfg, order) == RunX(cfg, order, 0)
 Success(S) == \A b \in DOMAIN S.out : S.out[b] # UNDEF
 (* the wait for the asynchronous routines never exceeds the largest init_timeout *)
 MaxWait(cfg) == LET T == {cfg[b].tmo : b \in Blocks(cfg)} IN CHOOSE m \in T : \A x \in T : x <= m
